@@ -23,9 +23,11 @@ def AnsPre : AnsCall → State → Prop
   | .addRrset _ h o _ _ _ _, u => o.WF ∧ HintOK Writer.Den u h o
   | _, _ => True
 
-/-- `s` is `u` with other room, TSIG slot and ARCOUNT -/
+/-- `s` is `u` with other room, TSIG slot and ARCOUNT — the room still holding the cursor and lying
+    within the buffer (what the writer's size invariant says of `s`) -/
 def FieldsOnly (u s : State) : Prop :=
-  ∃ l a ts ar, s = { u with limit := l, available := a, tsig := ts, arcount := ar }
+  (∃ l a ts ar, s = { u with limit := l, available := a, tsig := ts, arcount := ar }) ∧
+  s.cursor ≤ s.available ∧ s.available ≤ s.octets.size
 
 /-- **scratch independence** (the named hypothesis; a fact about the writer, not proved here): next to
     a state `u` that satisfies the writer's invariant `Writer.I` and the call's precondition, a writer
@@ -44,14 +46,19 @@ theorem ansCall_modS (c : AnsCall) (L : Nat) (T : Option Writer.Tsig) (s : State
   | addRr sec hh o ty cls ttl rd => exact addRrOp_modS sec hh o ty cls ttl rd L T s h
   | addRrset sec hh o ty cls ttl rds => exact addRrsetOp_modS sec hh o ty cls ttl rds L T s h
 
-theorem fieldsOnly_of_rel {R L : Nat} {T : Option Writer.Tsig} {a0 b : State} (h : lift R a0 = modS L T b) :
-    FieldsOnly b a0 := by
-  refine ⟨a0.limit, a0.available, a0.tsig, a0.arcount, ?_⟩
-  cases a0; cases b
-  simp only [lift, modS, State.mk.injEq] at h
-  simp only [State.mk.injEq]
-  obtain ⟨h1, h2, h3, h4, h5, h6, h7, h8, h9, h10, h11, h12, h13, h14, h15, h16, h17, h18, h19, h20⟩ := h
-  simp_all
+theorem fieldsOnly_of_rel {R L : Nat} {T : Option Writer.Tsig} {a0 b : State} (h : lift R a0 = modS L T b)
+    (hi : Writer.I b) (hc : a0.cursor ≤ a0.available) : FieldsOnly b a0 := by
+  refine ⟨⟨a0.limit, a0.available, a0.tsig, a0.arcount, ?_⟩, hc, ?_⟩
+  · cases a0; cases b
+    simp only [lift, modS, State.mk.injEq] at h
+    simp only [State.mk.injEq]
+    obtain ⟨h1, h2, h3, h4, h5, h6, h7, h8, h9, h10, h11, h12, h13, h14, h15, h16, h17, h18, h19, h20⟩ := h
+    simp_all
+  · have h2 := congrArg State.available h
+    have h3 := congrArg State.octets h
+    simp only [lift, modS] at h2 h3
+    have := hi.inv.av_lim; have := hi.inv.lim_size
+    rw [h3]; omega
 
 theorem rel_fields {R L : Nat} {T : Option Writer.Tsig} {a0 b : State} (h : lift R a0 = modS L T b) :
     a0.cursor = b.cursor ∧ a0.available + R = b.available ∧ a0.hv = b.hv := by
@@ -76,7 +83,13 @@ theorem callTwo_ok (hSI : ScratchIndepI) (c : AnsCall) (b : State) (hi : Writer.
   rw [hrun, ← hrel] at hm
   simp only at hm
   obtain ⟨s', hs', ht⟩ := sim_ansCall c R a0 () _ hm (by show b'.cursor ≤ a0.available; rw [hS.available]; exact hfit)
-  obtain ⟨g1, g2, g3⟩ := hSI c b a0 A hi hp (fieldsOnly_of_rel hrel) (Same.symm hS) hhv.symm
+  have hcur : a0.cursor ≤ a0.available := by
+    have h1 := congrArg State.cursor hrel
+    simp only [lift, modS] at h1
+    have := (ansCall_ok_ca c b b' hrun).1
+    have := hS.available
+    omega
+  obtain ⟨g1, g2, g3⟩ := hSI c b a0 A hi hp (fieldsOnly_of_rel hrel hi hcur) (Same.symm hS) hhv.symm
   rw [hs'] at g1 g2 g3
   simp only at g1 g2 g3
   rcases hr : c.run A with ⟨r, A'⟩
@@ -92,13 +105,21 @@ theorem callTwo_trunc (hSI : ScratchIndepI) (sec : RrSection) (hint : Hint) (own
     (L : Nat) (T : Option Writer.Tsig) (R : Nat) (a0 A : State) (hrel : lift R a0 = modS L T b)
     (hS : Same A a0) (hhv : A.hv = a0.hv) (b' : State)
     (hrun : addRrsetOp sec hint owner ty cls ttl rds b = (.err .Truncation, b'))
-    (hcnt : b'.arcount + 1 ≤ 65535) (hnp : (addRrsetOp sec hint owner ty cls ttl rds A).1 ≠ .panic) :
+    (hfit : b'.cursor ≤ A.available) (hcnt : b'.arcount + 1 ≤ 65535) (hnp : (addRrsetOp sec hint owner ty cls ttl rds A).1 ≠ .panic) :
     ∃ A' a0', addRrsetOp sec hint owner ty cls ttl rds A = (.err .Truncation, A') ∧
       lift R a0' = modS L T b' ∧ Same A' a0' := by
   have hm := addRrsetOp_modS sec hint owner ty cls ttl rds L T b (by rw [hrun]; exact hcnt)
   rw [hrun, ← hrel] at hm
   simp only at hm
-  obtain ⟨g1, _, _⟩ := hSI (.addRrset sec hint owner ty cls ttl rds) b a0 A hi hp (fieldsOnly_of_rel hrel)
+  have hcur : a0.cursor ≤ a0.available := by
+    have h1 := congrArg State.cursor hrel
+    simp only [lift, modS] at h1
+    have hb := addRrsetOp_cases sec hint owner ty cls ttl rds b
+    rw [hrun] at hb
+    have := hb.cursor
+    have := hS.available
+    omega
+  obtain ⟨g1, _, _⟩ := hSI (.addRrset sec hint owner ty cls ttl rds) b a0 A hi hp (fieldsOnly_of_rel hrel hi hcur)
     (Same.symm hS) hhv.symm
   have e : ∀ s, AnsCall.run (.addRrset sec hint owner ty cls ttl rds) s = addRrsetOp sec hint owner ty cls ttl rds s :=
     fun _ => rfl
@@ -367,7 +388,7 @@ theorem twoAt_addCall (ev : AddEv) (c : AnsCall)
         · rw [hr] at hpn; cases hpn
         · rw [hr] at hnp; exact hnp rfl
       obtain ⟨A1, a1, g1, g2, g3⟩ := callTwo_trunc hSI sec hh o ty cls ttl rds _ hi0 hp L T R _ _ hrel0 hS0 rfl b1
-        hm' hcnt hnpA
+        hm' hfit hcnt hnpA
       have g1' : AnsCall.run (.addRrset sec hh o ty cls ttl rds) { A with hv := some [] } = (.err .Truncation, A1) := g1
       rw [g1']
       simp only [ho, and_self, if_true]
